@@ -298,6 +298,12 @@ func runWatchCase(t *testing.T, o *Out, id, kind string, evs []watchEv, extIdx i
 			fname = fmt.Sprintf("f%d.ts", e.file)
 			if e.valid {
 				content = "import { Namespace } from \"@ory/keto-namespace-types\"\n"
+				if (ei+e.file+salt)%5 == 3 {
+					// a large valid version (more than 1 MiB, the declarations at the end): it
+					// takes effect as a whole like every other valid version
+					content += "/* " + strings.Repeat("padding padding padding padding padding padding padding padding\n", 17500) + " */\n"
+					o.Count("large-valid-version")
+				}
 				for _, nme := range e.names {
 					content += fmt.Sprintf("class %s implements Namespace {}\n", nme)
 				}
